@@ -568,10 +568,11 @@ func (c *crashCtx) lossImages(w *bufio.Writer, dir string, r *rng, thorough bool
 			d = strings.Join(desc, ",")
 		}
 		fmt.Fprintf(w, "loss.img %s cuts=%s => %s\n", tag, d, c.observeImage(img))
-		if thorough || tag == "all" || r.chance(25) {
+		if tag == "all" || r.chance(25) {
 			c.lossAgain(w, img, tag, d)
 		}
-		if thorough || r.chance(20) {
+		// (sampled also in the thorough tier: every length of every file is tens of thousands of images)
+		if r.chance(15) {
 			c.lossInRecovery(w, img, tag, d)
 		}
 		_ = os.RemoveAll(img)
